@@ -6,6 +6,7 @@ import (
 	"bufio"
 	"fmt"
 	"io"
+	"os"
 	"os/exec"
 	"strconv"
 	"strings"
@@ -78,6 +79,11 @@ func New(kind string, timeoutMs int) (*Solver, error) {
 		return nil, err
 	}
 	s := &Solver{Kind: kind, cmd: cmd, in: in, out: bufio.NewReaderSize(out, 1<<16), pr: term.NewPrinter(), timeoutMs: timeoutMs}
+	if lp := os.Getenv("GOSYM_SMTLOG"); lp != "" {
+		if f, err := os.Create(fmt.Sprintf("%s.%d", lp, cmd.Process.Pid)); err == nil {
+			s.Log = f
+		}
+	}
 	s.preamble()
 	return s, nil
 }
@@ -198,6 +204,9 @@ func (s *Solver) Check() Result {
 		sawErr = true
 	}
 	d := time.Since(t0)
+	if os.Getenv("GOSYM_QTRACE") != "" {
+		fmt.Fprintf(os.Stderr, "query %d: %s %s at %s\n", s.Stats.Queries, res, d, time.Now().Format("05.000"))
+	}
 	s.Stats.Queries++
 	s.Stats.Wall += d
 	if d > s.Stats.MaxQuery {
@@ -380,4 +389,131 @@ func tokenize(s string) []string {
 		}
 	}
 	return toks
+}
+
+// CheckFresh decides the conjunction of the given terms in a fresh one-shot
+// solver process (non-incremental: the solver may use its full preprocessing
+// and bit-blasting pipeline). On Sat, values of `want` are returned.
+func CheckFresh(kind string, timeoutMs int, asserts []*term.T, want []*term.T) (Result, []uint64, time.Duration, error) {
+	t0 := time.Now()
+	pr := term.NewPrinter()
+	var body strings.Builder
+	for _, a := range asserts {
+		if a.IsTrue() {
+			continue
+		}
+		r := pr.Ref(a)
+		body.WriteString(pr.Out.String())
+		pr.Out.Reset()
+		body.WriteString("(assert " + r + ")\n")
+	}
+	var refs []string
+	for _, w := range want {
+		refs = append(refs, pr.Ref(w))
+		body.WriteString(pr.Out.String())
+		pr.Out.Reset()
+	}
+	var script strings.Builder
+	if kind == "cvc5" {
+		script.WriteString("(set-logic ALL)\n")
+	}
+	script.WriteString("(set-option :produce-models true)\n")
+	script.WriteString(body.String())
+	script.WriteString("(check-sat)\n")
+	if len(refs) > 0 {
+		script.WriteString("(get-value (" + strings.Join(refs, " ") + "))\n")
+	}
+	var cmd *exec.Cmd
+	switch kind {
+	case "cvc5":
+		cmd = exec.Command("cvc5", "--lang=smt2", "--produce-models", fmt.Sprintf("--tlimit=%d", timeoutMs))
+	default:
+		cmd = exec.Command(kind, "-in", "-smt2", fmt.Sprintf("-T:%d", (timeoutMs+999)/1000))
+	}
+	cmd.Stdin = strings.NewReader(script.String())
+	out, err := cmd.Output()
+	d := time.Since(t0)
+	txt := string(out)
+	lines := strings.SplitN(strings.TrimSpace(txt), "\n", 2)
+	if len(lines) == 0 {
+		return Unknown, nil, d, err
+	}
+	if strings.Contains(txt, "(error") && !strings.Contains(txt, "model is not available") {
+		return Unknown, nil, d, fmt.Errorf("solver error: %s", strings.TrimSpace(txt))
+	}
+	switch strings.TrimSpace(lines[0]) {
+	case "unsat":
+		return Unsat, nil, d, nil
+	case "sat":
+		if len(refs) == 0 {
+			return Sat, nil, d, nil
+		}
+		if len(lines) < 2 {
+			return Unknown, nil, d, fmt.Errorf("no model output")
+		}
+		vals, perr := parseValues(lines[1], len(refs))
+		if perr != nil {
+			return Unknown, nil, d, perr
+		}
+		return Sat, vals, d, nil
+	}
+	return Unknown, nil, d, nil
+}
+
+func parseValues(txt string, n int) ([]uint64, error) {
+	toks := tokenize(txt)
+	vals := make([]uint64, 0, n)
+	i := 0
+	if len(toks) == 0 || toks[0] != "(" {
+		return nil, fmt.Errorf("parse get-value: %q", txt)
+	}
+	i++
+	for k := 0; k < n; k++ {
+		if i >= len(toks) || toks[i] != "(" {
+			return nil, fmt.Errorf("parse get-value at %d: %q", i, txt)
+		}
+		i++
+		if toks[i] == "(" {
+			d := 0
+			for {
+				if toks[i] == "(" {
+					d++
+				} else if toks[i] == ")" {
+					d--
+				}
+				i++
+				if d == 0 {
+					break
+				}
+			}
+		} else {
+			i++
+		}
+		var v uint64
+		tk := toks[i]
+		switch {
+		case tk == "true":
+			v = 1
+			i++
+		case tk == "false":
+			i++
+		case strings.HasPrefix(tk, "#x"):
+			v, _ = strconv.ParseUint(tk[2:], 16, 64)
+			i++
+		case strings.HasPrefix(tk, "#b"):
+			v, _ = strconv.ParseUint(tk[2:], 2, 64)
+			i++
+		case tk == "(" && i+3 < len(toks) && toks[i+1] == "_" && strings.HasPrefix(toks[i+2], "bv"):
+			v, _ = strconv.ParseUint(toks[i+2][2:], 10, 64)
+			i += 5
+		default:
+			return nil, fmt.Errorf("unsupported value %q", tk)
+		}
+		vals = append(vals, v)
+		if i >= len(toks) || toks[i] != ")" {
+			return nil, fmt.Errorf("parse get-value close at %d: %q", i, txt)
+		}
+		i++
+	}
+	return vals, nil
 }
